@@ -244,6 +244,15 @@ func searchOffs(offs []int, i int) int {
 
 func (p *c01) N() int { return p.total }
 
+// RaceSample: an extra -race worker re-runs every 211th (quick) / 4001st (thorough)
+// input; the tokeniser goroutine and the parser share the lexer structure.
+func (p *c01) RaceSample(tier string) int {
+	if tier == "thorough" {
+		return 4001
+	}
+	return 211
+}
+
 func (p *c01) locate(i int) (string, string) {
 	for _, g := range p.groups {
 		if i < g.n {
